@@ -295,6 +295,8 @@ type Typedef struct {
 	// within one run it is not worked out again for every reference.
 	failed   []error
 	failedIn int
+	// resolvedIn is the run of Process in which YangType was built.
+	resolvedIn int
 }
 
 func (Typedef) Kind() string             { return "typedef" }
@@ -325,9 +327,11 @@ type Type struct {
 
 	YangType *YangType
 
-	// resolveErrs holds the errors found while YangType was built. A type
-	// that was resolved with errors is resolved again when asked.
+	// resolveErrs holds the errors found while YangType was built, in run
+	// resolvedIn of Process. A type that was resolved with errors, or in
+	// an earlier run, is resolved again when asked.
 	resolveErrs []error
+	resolvedIn  int
 }
 
 func (Type) Kind() string             { return "type" }
